@@ -673,6 +673,20 @@ func genApi(stream string, seed uint64, n int) []GenCase {
 			out = append(out, GenCase{Case: c, Stream: stream, NonTrivial: true, Role: "api"})
 		}
 	}
+	// a host variable that happens to be called OPTIMIZE (the name Prepare uses internally as a signal to
+	// the VM): NoOptimize must still decide alone whether the code is optimised, and the host's value must
+	// be what the script and GetVariable see
+	for _, opt := range []bool{true, false} {
+		for _, hv := range []Val{VBool(false), VStr("host value"), VInt(0)} {
+			for _, s := range []string{"x = 1 + 2; return OPTIMIZE;", "if (true) { OPTIMIZE = 5; } return [OPTIMIZE, 2 * 3];", "return 1 + 2;"} {
+				c := Case{ID: fmt.Sprintf("%s-%d", stream, id), Script: s, Opt: opt, Show: []string{"runbool", "spec", "code"}, Tags: []string{"api:optimize-variable"},
+					Fns: []HostFn{recFn()}, Runs: []Run{{Obj: stdObject(r), Polls: defaultPolls}, {Obj: stdObject(r), Polls: defaultPolls}}}
+				c.AddVar("OPTIMIZE", hv)
+				id++
+				out = append(out, GenCase{Case: c, Stream: stream, NonTrivial: true, Role: "api"})
+			}
+		}
+	}
 	fns := []HostFn{{Name: "k0", Kind: "const", V: VInt(7)}, {Name: "k1", Kind: "const", V: VStr("s")}, {Name: "k2", Kind: "const", V: VBool(false)}, {Name: "k3", Kind: "const", V: VNull()},
 		{Name: "k4", Kind: "const", V: VArr(VInt(1))}, {Name: "first", Kind: "arg", I: 0}, {Name: "second", Kind: "arg", I: 1}, {Name: "third", Kind: "arg", I: 2}, {Name: "sum", Kind: "sum"},
 		{Name: "nothing", Kind: "void"}, {Name: "len", Kind: "const", V: VInt(-1)}, {Name: "list", Kind: "list"}, recFn()}
